@@ -1,4 +1,13 @@
+import os
 from props import rapid, fuzz, plain
+
+# TestVerifC09PoisonTwice reproduces a reported finding (a precertificate with two poison extensions is answered
+# with 500 instead of a client error). VERIF_C09_SKIP_FINDING=1 leaves that unit out (used for sensitivity runs of
+# the main unit); once sunlight is repaired, set env VERIF_C09_POISON_TWICE=1 on the main unit instead so that the
+# shape takes part in the full generator, and drop the extra unit.
+_finding = [] if os.environ.get("VERIF_C09_SKIP_FINDING") == "1" else [
+    rapid("ctlog", "internal/ctlog", "^TestVerifC09PoisonTwice$", 4, 30, ts=2),
+]
 
 PROPS = {"C09": dict(
     level="exploration",
@@ -26,4 +35,4 @@ PROPS = {"C09": dict(
     budget={"quick": 600, "thorough": 2400},
     units=[
         rapid("ctlog", "internal/ctlog", "^TestVerifC09Submissions$", 60, 500),
-    ])}
+    ] + _finding)}
